@@ -6,7 +6,7 @@
    lengths; [trun_state v (tinit maxPer maxTotal) ops] is the state and the callback log after
    the history [ops] of Assemble / FlushWithOptions / FlushAll calls on any connections.
    Variant [fixedv] = the repository with the four C11 repairs, [origv] = the unchanged tree. *)
-From GP Require Import Base C11Common C11TModel C11RModel C11LogProofs C11TProofs.
+From GP Require Import Base C11Common C11TModel C11RModel C11LogProofs C11TProofs C11RProofs.
 Open Scope Z_scope.
 
 (* ================================================================== tcpassembly *)
@@ -113,6 +113,44 @@ Example C11_t_nonvacuous :
 Proof. eexists. vm_compute. repeat split. Qed.
 
 (* ================================================================== reassembly *)
+
+(* C11_pages (repaired closeHalfConnection and page counter): after every history pages-in-use is
+   exactly the number of pages queued or saved in the connections of the pool, and every
+   half-connection's own counter equals queued + saved *)
+Theorem C11_r_pages : forall v cfg ops, v_saved v = true -> v_hpages v = true ->
+  let st := fst (rrun_state v (rinit cfg) ops) in
+  rs_used st = psum (rs_conns st) /\
+  Forall (fun c => h_pages (rc_c2s c) = hp (rc_c2s c) /\ h_pages (rc_s2c c) = hp (rc_s2c c)) (rs_conns st).
+Proof. exact r_pages. Qed.
+Print Assumptions C11_r_pages.
+
+(* C11_flushall: FlushAll from any state satisfying the invariant (every reachable one does:
+   C11_r_reachable_inv), if the model reports no panic: no page is in use, and every connection
+   still in the pool is closed in both directions and belongs to a stream that declined removal *)
+Theorem C11_r_flushall : forall v cfg st, v_saved v = true -> v_hpages v = true ->
+  rinv cfg st -> rs_dead st = false -> ro_panic (snd (rstep v st RFlushAll)) = false ->
+  rs_used (fst (rstep v st RFlushAll)) = 0 /\
+  Forall (fun c => both_closed c = true /\ declines cfg (rc_sid c) = true) (rs_conns (fst (rstep v st RFlushAll))).
+Proof. intros v cfg st Hs Hh. exact (r_flushall_step v cfg Hs Hh st). Qed.
+Theorem C11_r_reachable_inv : forall v cfg ops, v_saved v = true -> v_hpages v = true ->
+  rinv cfg (fst (rrun_state v (rinit cfg) ops)).
+Proof. intros v cfg ops Hs Hh. apply rrun_state_inv; [exact Hs|exact Hh|apply rinit_inv]. Qed.
+Print Assumptions C11_r_flushall.
+Print Assumptions C11_r_reachable_inv.
+
+(* non-vacuity: two connections, KeepFrom on every call, one stream declines removal, a FIN in one
+   direction, FlushAll: nothing in use, the declining stream's connection stays, both completed *)
+Definition r_example_cfg : rcfg := mkCfg 0 0 [(1, 0)] [false; true].
+Definition r_example : list rop :=
+  [RSeg 0 false 1000 true false false 0 100; RSeg 0 false 1001 false false false 3000 101;
+   RSeg 1 false 5000 true false false 0 102; RSeg 1 true 9000 false false false 10 103;
+   RSeg 0 false 6001 false false false 20 104; RSeg 0 false 4001 false true false 5 105; RFlushAll].
+Example C11_r_nonvacuous :
+  let st := fst (rrun_state fixedv (rinit r_example_cfg) r_example) in
+  rs_used st = 0 /\ map rc_sid (rs_conns st) = [1] /\ rs_dead st = false /\
+  rs_used (fst (rrun_state fixedv (rinit r_example_cfg) (firstn 5 r_example))) = 4 /\
+  exists ls, lrun l0 (snd (rrun_state fixedv (rinit r_example_cfg) r_example)) = Some ls /\ l_open ls = [].
+Proof. vm_compute. repeat split. eexists. split; reflexivity. Qed.
 
 Definition r_keep_cfg : rcfg := mkCfg 0 0 [(1, 0)] [].
 Definition r_leak_witness : list rop :=
